@@ -136,12 +136,12 @@ Catalogue == << << <<0, 1, 0, 1, 2>> >>,
 Init == /\ trajs \in (IF Data = {} THEN AllData ELSE {Catalogue[i] : i \in Data})
         /\ obj = [a |-> Unbound, b |-> Unbound]
         /\ disk = NoDisk /\ res = NoRes /\ hist = <<>>
-        /\ trail = <<Obs([a |-> Unbound, b |-> Unbound], NoDisk, NoRes)>>
+        /\ trail = << <<[a |-> Unbound, b |-> Unbound], NoDisk, NoRes>> >>
 
 (* Log is the LAST conjunct of every action (all other primed variables are determined by then) *)
 Log(op) == /\ (OpBudget = 0 \/ Cardinality({j \in DOMAIN hist : hist[j].op = op.op}) < OpBudget)
            /\ hist' = Append(hist, op)
-           /\ trail' = IF Emit THEN Append(trail, Obs(obj', disk', res')) ELSE trail   \* only kept when emitting
+           /\ trail' = IF Emit THEN Append(trail, <<obj', disk', res'>>) ELSE trail   \* snapshots, only kept when emitting
 CanStep == Len(hist) < Depth
 NewConfigs == IF AnyNew THEN Configs ELSE {c \in Configs : c.sliding /\ c.maxn = 0}
 Bools == IF Variants THEN BOOLEAN ELSE {FALSE}
@@ -291,7 +291,7 @@ OpView == <<trajs, obj, disk, res, Len(hist), LastOp>>
 (* one history per distinct TRANSITION (observation before, operation, state after): OpView identifies a step by its
    result, so an absorbed effect (force-saving over an identical model) would only be emitted from the first state *)
 TransView == <<OpView, IF hist = <<>> THEN <<>> ELSE trail[Len(trail) - 1]>>
-Rec == [trajs |-> trajs, hist |-> hist, trail |-> trail]
+Rec == [trajs |-> trajs, hist |-> hist, trail |-> [i \in DOMAIN trail |-> Obs(trail[i][1], trail[i][2], trail[i][3])]]
 EmitInv == (Emit /\ hist # <<>>) => PrintT(<<"CASE", ToJson(Rec)>>)
 EmitFull == (Emit /\ Len(hist) = Depth) => PrintT(<<"CASE", ToJson(Rec)>>)
 =============================================================================
